@@ -114,6 +114,8 @@ package operationapplier
 //@   ensures err == nil && !(validMH(boxed(reqDelta(anchoredOp.OperationRequest)), reqSuffixData(anchoredOp.OperationRequest).DeltaHash) && reqDelta(anchoredOp.OperationRequest) != nil && deltaValid(s.OperationParser, reqDelta(anchoredOp.OperationRequest))) ==> r0.UpdateCommitment == "" && r0.Doc != nil && fresh(r0.Doc)
 //@   ensures err == nil && validMH(boxed(reqDelta(anchoredOp.OperationRequest)), reqSuffixData(anchoredOp.OperationRequest).DeltaHash) && reqDelta(anchoredOp.OperationRequest) != nil && deltaValid(s.OperationParser, reqDelta(anchoredOp.OperationRequest)) ==> r0.UpdateCommitment == reqDelta(anchoredOp.OperationRequest).UpdateCommitment
 //@   ensures rm.Doc != nil ==> err != nil
+//   the created document is empty, or the create's patches applied to a new empty document
+//@   ensures err == nil ==> r0.Doc != nil && ((forall k string :: !(k in r0.Doc)) || (exists d document.Document :: d != nil && fresh(d) && (forall k string :: !(k in d)) && r0.Doc == patched(d, reqDelta(anchoredOp.OperationRequest).Patches)))
 //@   ensures err != nil ==> r0 == nil
 //
 //@ func (*Applier).applyUpdateOperation
@@ -140,6 +142,9 @@ package operationapplier
 //@   ensures err == nil && !(validMH(boxed(reqDelta(anchoredOp.OperationRequest)), recDeltaHash(reqSD(anchoredOp.OperationRequest))) && reqDelta(anchoredOp.OperationRequest) != nil && deltaValid(s.OperationParser, reqDelta(anchoredOp.OperationRequest))) ==> r0.UpdateCommitment == "" && r0.Doc != nil && fresh(r0.Doc)
 //@   ensures err == nil && validMH(boxed(reqDelta(anchoredOp.OperationRequest)), recDeltaHash(reqSD(anchoredOp.OperationRequest))) && reqDelta(anchoredOp.OperationRequest) != nil && deltaValid(s.OperationParser, reqDelta(anchoredOp.OperationRequest)) ==> r0.UpdateCommitment == reqDelta(anchoredOp.OperationRequest).UpdateCommitment
 //@   ensures err == nil ==> r0.Doc != nil && r0.Doc != rm.Doc
+//   after a recover the document consists solely of the recover's own content: it is empty, or the recover's patches
+//   applied to a new empty document - never to the previous document
+//@   ensures err == nil ==> (forall k string :: !(k in r0.Doc)) || (exists d document.Document :: d != nil && fresh(d) && (forall k string :: !(k in d)) && r0.Doc == patched(d, reqDelta(anchoredOp.OperationRequest).Patches))
 //@   ensures err != nil ==> r0 == nil
 //
 //@ func (*Applier).Apply
